@@ -252,9 +252,6 @@ func (p *p) number() (Item, error) {
 	if len(p.s) > 0 && p.s[0] == '.' {
 		return Item{}, errUnsupported // Float
 	}
-	if len(digits) > 19 {
-		p.dontcare = true
-	}
 	v, ok := new(big.Int).SetString(digits, 10)
 	if !ok {
 		return Item{}, errSyntax
@@ -263,7 +260,10 @@ func (p *p) number() (Item, error) {
 		v.Neg(v)
 	}
 	if !v.IsInt64() {
-		return Item{}, errSyntax // out of the 64-bit range
+		return Item{}, errSyntax // out of the 64-bit range: never acceptable, however many digits
+	}
+	if len(digits) > 19 {
+		p.dontcare = true // in range only thanks to leading zeros: recipients may count the characters or the value
 	}
 	return Item{Kind: Integer, Int: v.Int64()}, nil
 }
